@@ -280,8 +280,8 @@ theorem text_preserved (c : WCfg) (parent : Option Name) (s : Bytes) (st st' : W
     ∃ items, st' = st.emit (serItems items) ∧
       ∀ ctx : Ctx, Resolves ctx.tbl st.strtbl → ∀ own pg,
         s ≠ [] → charsCat (evItems ctx own pg items).1 = syncmlTypeText c.lang.id s := by
-  obtain ⟨items, h1, _, _, h4⟩ := encContentValueW_text c parent s st st' hs hl hnw hnd h
-  exact ⟨items, h1, h4⟩
+  obtain ⟨items, h1, _, _, _, h4⟩ := encContentValueW_text c parent s st st' hs hl hnw hnd h
+  exact ⟨items, h1, fun ctx hr own pg => (h4 ctx hr own pg).1⟩
 
 /-- **Attribute values are preserved**: what is written for an attribute is `attrStart *attrValue`
     of the grammar such that the value prefix of the start token (as a reader resolves it: first row
@@ -344,6 +344,58 @@ theorem decodes_by_spec_partial (cfg : X2WCfg) (t : Tree) (bs : Bytes) (lang : L
   rw [hs]
   exact Props.C04.parse_ser pcfg d (hwf pcfg h1 h2 h3 h4 h5 h6)
 
+/-! ## The specification's reading of the output is the source document -/
+
+/-- The table facts of the source view hold for every language but ActiveSync (two names share a
+    token there — the "earlier alias" normalisation of C03). -/
+theorem main_tagSemOk : (Gen.main.filter (fun l => !(l.id == 2401) && !(l.id == 2402))).all tagSemOk = true := by
+  decide +kernel
+theorem main_attrNameSemOk : Gen.main.all attrNameSemOk = true := by decide +kernel
+
+/-- **"Decoding those bytes strictly by the WBXML specification yields the source document under
+    the normalisations of C03."** For a plain tree (no CDATA section, no embedded document) over
+    a plain language (no typed content, no typed attribute values, alias-free tables: 21 of the 29
+    entries of the main table, SyncML 1.0–1.2, DevInf, MetInf, DM-DDF, WML, SI excluded …, see
+    `plain_languages`): the output is `Spec.ser d` of a well-formed `d`, the parser model accepts it,
+    and the events it delivers — which are the events the specification assigns to `d` — have
+    exactly the XML-level view of the source tree (`srcToks`): the same element nesting and names,
+    the same attributes with the same values in the same order (none for a language without
+    attribute table), and the same character data octet for octet after `normText` (white-space
+    handling, C-string reading, SyncML media-type rewriting) — independent of string table,
+    version and anonymity. `_partial`: CDATA / embedded documents / typed content (C12) / the
+    ActiveSync alias are outside; the tree-level statement `treeOfWbxml … = norm t` additionally
+    needs the builder's merging of adjacent character data. -/
+theorem denotes_source_partial (cfg : X2WCfg) (t : Tree) (bs : Bytes) (lang : Lang) (r : Node)
+    (hlang : t.lang = some lang) (hroot : t.root = some r)
+    (hl : langOk lang = true) (hover : treeOver lang t = true) (h : treeToWbxml cfg t = .ok bs)
+    (hpn : plainNode r = true) (hpl : plainLang lang = true) (hnta : noTypedAttr lang.id = true)
+    (hvs : valSemOk lang = true) (has : attrSemOk lang = true) (hts : tagSemOk lang = true)
+    (han : attrNameSemOk lang = true) :
+    ∃ d : Doc, bs = Spec.ser d ∧
+      ∀ pcfg : PCfg, headerLang pcfg d.hdr = some lang →
+        (headerCharset pcfg d.hdr = 3 ∨ headerCharset pcfg d.hdr = 106) →
+        pcfg.charsets.contains (headerCharset pcfg d.hdr) = true →
+        cfg.version < 256 → bs.length < 4294967296 →
+        d.WF pcfg ∧ (parse pcfg bs).result = .ok () ∧
+        (parse pcfg bs).events = Spec.events pcfg d ∧
+        (parse pcfg bs).events.flatMap toks = srcToks (dcfgOf cfg lang) r := by
+  obtain ⟨r', d, st, hr', hres⟩ := treeToWbxml_doc cfg t bs lang hlang hl hover h
+  rw [hroot] at hr'; injection hr' with hr'; subst hr'
+  refine ⟨d, hres.ser, ?_⟩
+  intro pcfg h1 h2 h3 h4 h5
+  obtain ⟨hnoq, hden⟩ := hres.denotes hl hpn hpl hnta hvs has hts han pcfg h1
+  have hwf := hres.wf hl pcfg h1 h2 h3 h4 h5 (Or.inl hnoq)
+  have hp := Props.C04.parse_ser pcfg d hwf
+  rw [← hres.ser] at hp
+  exact ⟨hwf, hp.1, hp.2, by rw [hp.2]; exact hden⟩
+
+/-- The languages `denotes_source_partial` applies to. -/
+theorem plain_languages :
+    (Gen.main.filter (fun l => langOk l && plainLang l && noTypedAttr l.id && valSemOk l && attrSemOk l &&
+      tagSemOk l && attrNameSemOk l)).map (·.id) =
+    [1101, 1102, 1103, 1104, 1201, 1202, 1203, 1204, 1401, 1501, 1601, 2201, 2202, 2203, 2204, 2101, 2102, 2103,
+     2001, 2002, 2501] := by decide +kernel
+
 /-! ## Non-vacuity -/
 
 /-- `<SyncML><SyncHdr><Meta><Format xmlns="syncml:metinf">b64</Format></Meta></SyncHdr></SyncML>`
@@ -374,6 +426,11 @@ example : (match treeToWbxml exCfg exTree with | .ok bs => bs | .error _ => []) 
   decide +kernel
 
 example : (Gen.main.filter (fun l => untypedLang l.id)).length = 20 := by decide +kernel
+
+/-- The source view of the example tree, and the hypotheses of `denotes_source_partial` for it. -/
+example : plainNode (.elt (.token ⟨b!"SyncML", 0, 0x2D, 0⟩) [] [.text b!" a "]) = true ∧
+    srcToks (dcfgOf exCfg Gen.lang15) (.elt (.token ⟨b!"SyncML", 0, 0x2D, 0⟩) [] [.text b!" a "]) =
+      [.start b!"SyncML" [], .ch 0x61, .stop b!"SyncML"] := by decide +kernel
 
 example : opqsDoc Props.C04.exSyncml = [] ∧ headerLang Props.C04.exCfg Props.C04.exSyncml.hdr = some Gen.lang15 ∧
     headerCharset Props.C04.exCfg Props.C04.exSyncml.hdr = 106 := by decide +kernel
